@@ -1,1 +1,287 @@
-PROPERTY='C02'
+"""C02 -- LRI/LRU stay within capacity, evict strictly by recency, count lookups.
+
+The sequential (one caller, no pre-emption) configuration of the C03 simulation:
+same harness, same simulated lock (which here verifies re-entrant use), same
+reference model, same destructive eviction-order probe.  There is no fault or
+schedule dimension in this property; the evidence says so (faults_fired: {}).
+"""
+from simkit import core, shrinkers
+from engines import threadsim
+from models import lru_model as M
+from . import cachelib as L
+
+PROPERTY = 'C02'
+ENGINE = 'threadsim'
+LEVEL = 'exploration'
+SOURCE_FILES = ['boltons/cacheutils.py']
+SIM_TIME_UNIT = 'cache operations executed (no clock in this property)'
+TIERS = {
+    'quick': {'budget_s': 20, 'min_runs': 40000, 'block': 500},
+    'thorough': {'budget_s': 600, 'min_runs': 3000000, 'block': 2000},
+}
+RULE = ('Histories of 1-40 dict-API operations over 2-6 keys (ints, strs, equal-but-differently-typed '
+        '1/1.0/True, tuples, None) on LRI and LRU with max_size 1-5 (sometimes 128) and on_miss in '
+        '{none, pure, re-entrant set, re-entrant get}, drawn from the run PRNG; every step is compared '
+        'with the reference cache (outcome, contents, len, three counters, on_miss calls) and the '
+        'eviction order is probed destructively at the end and after three seeded prefixes. '
+        'Non-trivial: at least one eviction happened and a key was looked up after it had been evicted or '
+        'removed. distinct = distinct (class, max_size, on_miss, ops) hashes among those.')
+COMPONENTS = {'real': ['boltons.cacheutils.LRI', 'boltons.cacheutils.LRU', 'CPython dict'],
+              'stub': ['the lock (engines.threadsim.SimRLock in its uncontended mode; checks re-entrant use)',
+                       'on_miss callbacks (harness functions)']}
+ASSUMPTIONS = ['reference model models/lru_model.py is the reading of C02: popitem may return any present pair; '
+               'update/|= are the sequence of assignments in argument order; copy() means the .copy() method',
+               'only the public dict API and hit_count/miss_count/soft_miss_count are observed',
+               'single caller, no pre-emption (the concurrent face is C03)']
+
+KEY_POOLS = [
+    [1, 2, 3, 4, 5, 6],
+    ['a', 'b', 'c', 'd', 'e', 'f'],
+    [1, {'k': 'f', 'v': 1.0}, {'k': 'b', 'v': True}, 0, {'k': 'b', 'v': False}, 2],
+    [{'k': 't', 'v': [1, 2]}, {'k': 't', 'v': []}, {'k': 'n'}, 'a', 0, {'k': 't', 'v': ['a']}],
+]
+
+
+def setup(root):
+    L.setup(root)
+
+
+def gen_case(rng, tier):
+    cls = rng.choice(['LRI', 'LRU'])
+    max_size = rng.choice([1, 1, 2, 2, 3, 3, 4, 5]) if rng.random() < 0.95 else 128
+    on_miss = rng.choice(['none', 'none', 'none', 'pure', 'pure', 'reent_set', 'reent_get'])
+    pool = rng.choice(KEY_POOLS)
+    keys = pool[:rng.randint(2, 6)]
+    nops = rng.randint(1, 40) if rng.random() < 0.8 else rng.randint(1, 8)
+    ops = gen_ops(rng, keys, nops, 'v')
+    prefixes = sorted(set(rng.randint(1, nops) for _ in range(3)))
+    return {'cls': cls, 'max_size': max_size, 'on_miss': on_miss, 'ops': ops, 'prefixes': prefixes}
+
+
+def gen_ops(rng, keys, nops, tag, weights=None):
+    ops = []
+    ctr = [0]
+
+    def val():
+        ctr[0] += 1
+        return '%s%d' % (tag, ctr[0])
+
+    def pairs(n):
+        return [[rng.choice(keys), val()] for _ in range(n)]
+
+    for _ in range(nops):
+        r = rng.random()
+        k = rng.choice(keys)
+        if r < 0.26:
+            ops.append(['set', k, val()])
+        elif r < 0.40:
+            ops.append(['get', k])
+        elif r < 0.48:
+            ops.append(['getd', k, rng.choice([{'k': 'n'}, 'dflt'])])
+        elif r < 0.55:
+            ops.append(['setdefault', k, val()])
+        elif r < 0.60:
+            ops.append(['del', k])
+        elif r < 0.64:
+            ops.append(['pop', k])
+        elif r < 0.67:
+            ops.append(['popd', k, 'dflt'])
+        elif r < 0.70:
+            ops.append(['popitem'])
+        elif r < 0.715:
+            ops.append(['clear'])
+        elif r < 0.77:
+            ops.append(['update', pairs(rng.randint(0, 4)), rng.choice(['dict', 'pairs', 'iter'])])
+        elif r < 0.80:
+            ops.append(['ior', pairs(rng.randint(0, 4))])
+        elif r < 0.84:
+            ops.append(['in', k])
+        elif r < 0.87:
+            ops.append(['len'])
+        elif r < 0.89:
+            ops.append(['dict'])
+        elif r < 0.91:
+            ops.append(['keys'])
+        elif r < 0.95:
+            ops.append(['eq', 'CUR' if rng.random() < 0.5 else pairs(rng.randint(0, 3))])
+        elif r < 0.965:
+            ops.append(['ne', 'CUR' if rng.random() < 0.5 else pairs(rng.randint(0, 3))])
+        elif r < 0.97:
+            ops.append(['eqself'])
+        else:
+            ops.append(['copy'])
+    return ops
+
+
+def fixed_cases(tier):
+    return []
+
+
+def case_size(case):
+    return len(case['ops'])
+
+
+def _resolve_cur(op, state, variant):
+    """'CUR' arguments of ==/!= mean: a plain dict equal to the current contents
+    (variant 0) -- the comparison a user is most likely to make."""
+    if op[0] in ('eq', 'ne') and op[1] == 'CUR':
+        return (op[0], list(M.contents(state).items()))
+    return None
+
+
+def _run_prefix(case, n, spec):
+    """Fresh cache, first n ops, then probe: the eviction order after a prefix."""
+    ctx = L.Ctx()
+    sched = _Passive()
+    c = L.make_cache(case, ctx, sched)
+    state = spec.initial()
+    for op in case['ops'][:n]:
+        mop = _resolve_cur(op, state, 0) or L.model_op(op)
+        if mop[0] in ('eq', 'ne') and op[1] == 'CUR':
+            real = ('ok', (c == dict(mop[1])) if mop[0] == 'eq' else (c != dict(mop[1])))
+        else:
+            real, post = L.exec_op(c, op, ctx)
+        alts = M.apply(spec, state, mop)
+        if len(alts) > 1:
+            m = [a for a in alts if a[0] == real]
+            if not m:
+                return None
+            state = m[0][1]
+        else:
+            state = alts[0][1]
+    return c, state
+
+
+class _Passive:
+    """Scheduler stand-in for the uncontended configuration."""
+    cur = None
+    abort_reason = None
+    threads = ()
+
+
+def run_case(case):
+    out = core.Outcome()
+    log = core.EventLog(keep=False)
+    spec = M.Spec(case['cls'], case['max_size'], case['on_miss'])
+    ctx = L.Ctx()
+    sched = _Passive()
+    c = L.make_cache(case, ctx, sched)
+    state = spec.initial()
+    model_calls = []
+    gone = set()
+    evicted_any = False
+    looked_up_gone = False
+    ms = case['max_size']
+    for i, op in enumerate(case['ops']):
+        mop = _resolve_cur(op, state, 0) or L.model_op(op)
+        if op[0] in ('eq', 'ne') and op[1] == 'CUR':
+            try:
+                real = ('ok', (c == dict(mop[1])) if op[0] == 'eq' else (c != dict(mop[1])))
+            except RecursionError:
+                real = ('exc', 'RecursionError')
+            post = None
+        else:
+            real, post = L.exec_op(c, op, ctx)
+        if post is not None:
+            real = ('ok', post())
+        log.add('op', i, op[0], repr(real))
+        alts = M.apply(spec, state, mop)
+        match = [a for a in alts if a[0] == real]
+        if not match:
+            want = alts[0][0] if len(alts) == 1 else ('one of', [a[0] for a in alts])
+            out.fail('wrong-outcome', i, '%s on %s(max_size=%d, on_miss=%s) after %d ops returned %r, reference gives %r'
+                     % (op, case['cls'], ms, case['on_miss'], i, real, want), op=op[0])
+            break
+        before = set(k for k, _ in state[0])
+        _o, state, _views, calls = match[0]
+        model_calls.extend(calls)
+        after = set(k for k, _ in state[0])
+        if mop[0] in ('get', 'getd', 'setdefault', 'in', 'pop', 'popd', 'del') and any(mop[1] == g for g in gone):
+            looked_up_gone = True
+        if mop[0] in ('set', 'update', 'ior', 'get', 'getd', 'setdefault') and (before - after):
+            evicted_any = True
+        gone |= (before - after)
+        gone -= after
+        # --- cross-checks after every step -------------------------------------
+        n = len(c)
+        if n > ms:
+            out.fail('capacity-exceeded', i, 'len(cache) == %d > max_size == %d after %r' % (n, ms, op), op=op[0])
+            break
+        d = dict(c)
+        if d != M.contents(state) or n != len(d):
+            out.fail('contents-differ', i, 'after %r: cache holds %r (len %d), reference holds %r'
+                     % (op, d, n, M.contents(state)), op=op[0])
+            break
+        cnt = (c.hit_count, c.miss_count, c.soft_miss_count)
+        if cnt != M.counters(state):
+            out.fail('counters-differ', i, 'after %r: (hit, miss, soft_miss) == %r, reference %r'
+                     % (op, cnt, M.counters(state)), op=op[0])
+            break
+        if cnt[2] > cnt[1]:
+            out.fail('counters-differ', i, 'soft_miss_count %d > miss_count %d' % (cnt[2], cnt[1]), op=op[0])
+            break
+        if ctx.on_miss_calls != model_calls:
+            out.fail('on_miss-calls-differ', i, 'after %r: on_miss called for %r, reference %r'
+                     % (op, ctx.on_miss_calls, model_calls), op=op[0])
+            break
+    out.steps = len(case['ops'])
+    if out.violation is None:
+        # eviction order at the end (destructive) ...
+        pr = L.probe(c, ms)
+        want = M.order(state)
+        if pr['error'] or pr['over_capacity'] or pr['order'] != want or pr['left']:
+            out.fail('eviction-order-differs', len(case['ops']),
+                     'final eviction order (oldest first) %r, reference %r; probe error=%r left=%r over_capacity=%r'
+                     % (pr['order'], want, pr['error'], pr['left'], pr['over_capacity']),
+                     last_op=case['ops'][-1][0] if case['ops'] else None)
+    if out.violation is None:
+        # ... and after seeded prefixes (re-executed on a fresh cache)
+        for p in case.get('prefixes', []):
+            if p >= len(case['ops']) or p <= 0:
+                continue
+            r = _run_prefix(case, p, spec)
+            if r is None:
+                continue
+            c2, st2 = r
+            pr = L.probe(c2, ms)
+            if pr['error'] or pr['over_capacity'] or pr['order'] != M.order(st2) or pr['left']:
+                out.fail('eviction-order-differs', p,
+                         'eviction order after the first %d ops %r, reference %r (probe error=%r left=%r)'
+                         % (p, pr['order'], M.order(st2), pr['error'], pr['left']),
+                         last_op=case['ops'][p - 1][0])
+                break
+            out.steps += p
+    out.sim_time = float(out.steps)
+    out.digest = log.digest()
+    if evicted_any and looked_up_gone:
+        out.nontrivial.append(core.h64([case['cls'], ms, case['on_miss'], case['ops']]))
+    if evicted_any:
+        out.probe('history_with_eviction')
+    if case['on_miss'].startswith('reent'):
+        out.probe('reentrant_on_miss_run')
+    return out
+
+
+def shrink(case, fails):
+    c = shrinkers.shrink_list_field(case, 'ops', fails)
+    c = shrinkers.try_set(c, {'prefixes': []}, fails)
+    c = shrinkers.try_set(c, {'on_miss': 'none'}, fails)
+    for ms in (1, 2, 3):
+        if c['max_size'] > ms:
+            c = shrinkers.try_set(c, {'max_size': ms}, fails)
+    # shrink update/ior argument lists
+    for i, op in enumerate(c['ops']):
+        if op[0] in ('update', 'ior') and len(op[1]) > 1:
+            from simkit.core import ddmin
+            def test(sub, i=i, op=op):
+                c2 = dict(c)
+                c2['ops'] = list(c['ops'])
+                c2['ops'][i] = [op[0], sub] + op[2:]
+                return fails(c2)
+            small = ddmin(op[1], test)
+            if len(small) < len(op[1]):
+                c = dict(c)
+                c['ops'] = list(c['ops'])
+                c['ops'][i] = [op[0], small] + op[2:]
+    c = shrinkers.shrink_list_field(c, 'ops', fails)
+    return c
